@@ -8,7 +8,7 @@ const uint32_t MARKS[8] = {4, 7, 8, 14, 889, 890, 896, 1778};
 
 struct Setup {
   Sim s; World w;
-  TObj *junk32 = nullptr, *junkdom = nullptr;
+  TObj *junk32 = nullptr, *junkdom = nullptr; int hi0 = -1;
   explicit Setup(Ctx &c) : s(c), w(s) {}
   void build(Ctx &c) {
     s.nodeid = (uint8_t)(1 + c.t.below(127));
@@ -20,6 +20,9 @@ struct Setup {
     w.add_domain(0x2101, 0, c.t.biased(1, 64, MARKS, 3), true, true, (uint32_t)iv.next());
     junk32 = &w.add_int(0x2200, 0, 4, false, false, true, true, 0x12345678);
     junkdom = &w.add_domain(0x2201, 0, 50, true, true, 77);
+    // mode wide-dictionary: writable objects in the network-variable area and at the top of the index space, 8000h and more indices away from the rest
+    if (c.param == 1) { hi0 = (int)w.objs.size(); w.add_domain(0xA100, 0, c.t.biased(1, 1200, MARKS, 8), true, true, (uint32_t)iv.next()); w.add_int(0xA200, 1, 4, false, true, true, true, (uint32_t)iv.next());
+      w.add_int(0xA200, 2, 2, true, false, true, true, (uint32_t)iv.next()); w.add_int(0xFFFE, 0, 1, false, false, true, true, (uint32_t)iv.next()); w.add_int(0x9000, 0, 4, false, false, true, true, (uint32_t)iv.next()); }
     w.finish();
     junk32 = w.lookup(0x2200, 0); junkdom = w.lookup(0x2201, 0);
   }
@@ -68,7 +71,8 @@ void case_impl(Ctx &c, bool prefix) {
       VLOG(c, " (previous transfer: segmented upload of %04X:%02X ended by the server with a toggle error after %d segments)", po.idx, po.sub, k);
       s.tx = keep; prefixes++;
     }
-    TObj &o = w.objs[c.t.chance(80) ? 12 : c.t.below(14)];     // 12 integer kinds + 2 domains (the large one favoured)
+    TObj &o = w.objs[S.hi0 >= 0 && c.t.coin() ? (uint32_t)S.hi0 + c.t.below(5) : c.t.chance(80) ? 12 : c.t.below(14)];     // 12 integer kinds + 2 domains (the large one favoured)
+    if (o.idx >= 0x9000) c.cls("object-at-index-9000h-or-above");
     uint32_t mode = c.t.below(3);         // 0 expedited, 1 segmented, 2 block
     bool ind = c.t.coin();
     uint32_t plen;
@@ -168,11 +172,12 @@ Registrar reg(Prop{
     "Cases: node id 1..127; dictionary with all 12 writable integer kinds {8,16,32 bit} x {direct, referenced} x {plain, node-id relative} and domains of 1..2000 (4000 in thorough) bytes, sizes boundary-biased around 4,7,8,14,889,890,896,1778; "
     "1..3 transfers by a reference conforming client: expedited / segmented / block, size announced or not, payload any length the object can hold (domains: 1..size), random fill of the last segment, up to 3 (6) segments lost in transit inside block sub-blocks followed by go-back-N retransmission, "
     "in build n2 interleaved with traffic on the second server addressing other objects; 1 in 9 integer transfers use a wrong length and must then be refused without effect. "
-    "Mode after-server-abort: a segmented upload which the server ended with a toggle error precedes the download under test. Mode large-domain: one segmented or block download of up to 5500 bytes into a domain of 65536..68535 bytes, its end placed around the point where 65536 bytes of the domain remain. Oracle: every response checked against CiA 301 (command, toggle, ackseq, block size 1..127, multiplexer), then a snapshot of ALL object storage must equal the snapshot before with exactly the payload applied. "
+    "Mode after-server-abort: a segmented upload which the server ended with a toggle error precedes the download under test. Mode wide-dictionary: the dictionary also holds writable objects at 9000h, A100h, A200h and FFFEh (every writable object: also those 8000h and more indices away from the communication objects), half of the transfers address them. Mode large-domain: one segmented or block download of up to 5500 bytes into a domain of 65536..68535 bytes, its end placed around the point where 65536 bytes of the domain remain. Oracle: every response checked against CiA 301 (command, toggle, ackseq, block size 1..127, multiplexer), then a snapshot of ALL object storage must equal the snapshot before with exactly the payload applied. "
     "Non-trivial: a confirmed transfer of >= 2 request/response round trips, or a retransmission, or interleaved second-server traffic. Distinct = distinct decoded choice sequence.",
     {Mode{"random", one_case, false, 1100000, 22000000, 0, 0, 200, 400},
      Mode{"after-server-abort", prefix_case, false, 400000, 8000000, 0, 0, 200, 400},
-     Mode{"large-domain", large_case, false, 30000, 600000, 0, 0, 64, 64}},
+     Mode{"large-domain", large_case, false, 30000, 600000, 0, 0, 64, 64},
+     Mode{"wide-dictionary", one_case, false, 200000, 4000000, 1, 1, 200, 400}},
     {"a payload longer than the object is outside the domain (the object cannot hold it); for integers a length different from the width must be refused",
      "losses never hit the final segment of a sub-block (a conforming client would time out and abort, which is no confirmed download)",
      "reserved bytes of responses are not compared; the next block size may be any value 1..127 and is honoured by the client"}});
